@@ -168,7 +168,7 @@ impl<'a> Gen<'a> {
         _ => format!("{} < {}", self.num(0, vars), self.num(0, vars)),
       };
     }
-    match self.rng.below(16) {
+    match self.rng.below(20) {
       0 => format!("({} and {})", self.boolean(d - 1, vars), self.boolean(d - 1, vars)),
       1 => format!("({} or {})", self.boolean(d - 1, vars), self.boolean(d - 1, vars)),
       2 => {
@@ -201,7 +201,24 @@ impl<'a> Gen<'a> {
         format!("({} {} in {}, {} in {} satisfies {})", q, x, self.list(d - 1, vars), y, self.list(d - 1, vars), self.boolean(d - 1, &inner))
       }
       10 => {
-        let t = *self.rng.pick(&["number", "string", "boolean", "list<number>", "context<a: number>", "Any", "Null", "function<number>->number", "range<number>"]);
+        let t = *self.rng.pick(&[
+          "number",
+          "string",
+          "boolean",
+          "list<number>",
+          "context<a: number>",
+          "Any",
+          "Null",
+          "function<number>->number",
+          "range<number>",
+          "date",
+          "time",
+          "date and time",
+          "years and months duration",
+          "days and time duration",
+          "list<Any>",
+          "range<Any>",
+        ]);
         format!("({} instance of {})", self.any(d - 1, vars), t)
       }
       11 => format!("({} = {})", self.any(d - 1, vars), self.any(d - 1, vars)),
@@ -211,7 +228,32 @@ impl<'a> Gen<'a> {
         let (o1, o2) = *self.rng.pick(&[("<", ">"), ("<=", ">="), (">=", "<"), (">", "<=")]);
         format!("({} in ({} {}, {} {}))", self.num(d - 1, vars), o1, self.num(d - 1, vars), o2, self.num(d - 1, vars))
       }
-      _ => format!("({} = {})", self.list(d - 1, vars), self.list(d - 1, vars)),
+      15 => format!("({} = {})", self.list(d - 1, vars), self.list(d - 1, vars)),
+      // `in` with a list on the right: membership of a value, and of a list in a list of lists
+      16 => format!("({} in {})", self.any(d - 1, vars), self.list(d - 1, vars)),
+      17 => format!("({} in [{}, {}])", self.list(d - 1, vars), self.list(d - 1, vars), self.list(d - 1, vars)),
+      18 => {
+        // a list against lists sharing its items (in another order, with one more, with one less)
+        let a = self.num(0, vars);
+        let b = self.num(0, vars);
+        let c = self.any(0, vars);
+        let lhs = *self.rng.pick(&[0usize, 1, 2, 3]);
+        let l = match lhs {
+          0 => format!("[{}, {}]", a, b),
+          1 => format!("[{}, {}, {}]", a, b, c),
+          2 => format!("[{}, {}]", a, a),
+          _ => "[]".to_string(),
+        };
+        let r = match self.rng.below(5) {
+          0 => format!("[[{}, {}]]", b, a),
+          1 => format!("[[{}], [{}, {}, {}]]", a, c, b, a),
+          2 => format!("[[{}, {}], [{}]]", a, b, c),
+          3 => format!("[[{}], [{}]]", a, b),
+          _ => format!("[{}, [{}, {}]]", a, a, b),
+        };
+        format!("({} in {})", l, r)
+      }
+      _ => format!("({} in ({}, {}))", self.any(d - 1, vars), self.list(d - 1, vars), self.any(d - 1, vars)),
     }
   }
   pub fn list(&mut self, d: u32, vars: &Vars) -> String {
@@ -351,6 +393,13 @@ pub fn base_scope() -> (Scope, Vars, Vec<FeelContext>) {
     // a list of contexts whose items have different keys (a key of a later item only is a name of the scope too)
     ("lk", K::Any, "[{a: 1}, {a: 2, k2: 3}, {k3: {k4: 5}}]", true),
     ("nn", K::Any, "null", true),
+    // values of the other kinds, reachable through `any` only (instance of, =, in, ill-typed operands)
+    ("d1", K::Any, "date(\"2021-02-03\")", false),
+    ("t1", K::Any, "time(\"10:11:12\")", true),
+    ("dt1", K::Any, "date and time(\"2021-02-03T10:11:12\")", true),
+    ("ym1", K::Any, "duration(\"P1Y2M\")", false),
+    ("dd1", K::Any, "duration(\"P1DT2H\")", true),
+    ("r1", K::Any, "[1..5]", true),
     ("n1", K::Num, "3", true), // shadows the bottom binding
   ];
   let mut vars = Vars { vars: vec![] };
@@ -413,6 +462,7 @@ pub struct Case {
 /// Parses and evaluates `text` in (a fresh copy of) the base scope; returns the request line
 /// for the model and the canonical implementation answer.
 pub fn run_case(text: &str, ctxs: &[FeelContext], fuel: u32) -> Option<Case> {
+  crate::util::note_case(text);
   let scope = Scope::new();
   for c in ctxs {
     scope.push(c.clone());
@@ -518,6 +568,31 @@ pub fn run_with(cfg: &Cfg, property: &str) -> Report {
   let n_random = if thorough { 300_000 } else { 25_000 };
   let max_depth = if thorough { 5 } else { 3 };
   let mut texts: Vec<String> = corpus().iter().map(|s| s.to_string()).collect();
+  let n_corpus = texts.len();
+  // every kind of value against every kind of type, with `instance of`, `=` and `in` (a full matrix, every run)
+  {
+    let values = [
+      "1", "\"a\"", "true", "null", "d1", "t1", "dt1", "ym1", "dd1", "r1", "[]", "[1]", "[1, \"a\"]", "[[1]]", "{}", "{a: 1}", "c1", "l1", "lc",
+      "function(x) x", "function(x: number) x + 1", "[d1..d1]", "[\"a\"..\"b\")", "nn",
+    ];
+    let types = [
+      "number", "string", "boolean", "date", "time", "date and time", "years and months duration", "days and time duration", "Any", "Null",
+      "list<number>", "list<Any>", "list<list<number>>", "range<number>", "range<date>", "range<Any>", "context<a: number>", "context<a: Any>",
+      "context<a: number, b: string>", "function<number>->number", "function<Any>->Any",
+    ];
+    for v in values {
+      for t in types {
+        texts.push(format!("({} instance of {})", v, t));
+      }
+    }
+    for a in values {
+      for b in values {
+        texts.push(format!("({} = {})", a, b));
+        texts.push(format!("({} in {})", a, b));
+        texts.push(format!("({} in ({}, {}))", a, b, a));
+      }
+    }
+  }
   {
     let mut g = Gen { rng: &mut rng, fresh: 0 };
     for i in 0..n_random {
@@ -529,7 +604,6 @@ pub fn run_with(cfg: &Cfg, property: &str) -> Report {
   let mut pair_cov: BTreeSet<(String, String)> = BTreeSet::new();
   let mut cases = vec![];
   let mut unparsable = 0u64;
-  let n_corpus = corpus().len();
   for (ti, t) in texts.iter().enumerate() {
     match run_case(t, &ctxs, 8) {
       Some(c) => cases.push(c),
